@@ -87,6 +87,10 @@ def build(seed, shuffle_seed=None):
             kw["markers"] = [SAFE_MARKER]
         elif x < 0.28:
             kw["tags"] = ["safe"]
+        elif x < 0.36:
+            kw["tags"] = [r.choice(NOISE_TAGS)]
+        elif x < 0.41:
+            kw["markers"] = [r.choice(NOISE_MARKERS)]
         args.append(arg("body", t, "body", **kw))
         for q in range(r.choice([0, 1, 2])):
             qt = r.choice([ref("Color", P[0]), opt(ref("Color", P[0])), prim("STRING"), lst(prim("INTEGER")), external("ExtQ", "java.ext", ref("Color", P[0])),
